@@ -38,7 +38,10 @@ pub fn run(ctx: &Ctx, out: &mut Out) {
             .collect();
         work.push((prog.render(), goals, coinductive));
     }
-    for (text, goals, coinductive) in work {
+    for (widx, (text, goals, coinductive)) in work.into_iter().enumerate() {
+        if !ctx.mine(widx) {
+            continue;
+        }
         let (_db, program) = match lower_program(&text, chalk_integration::SolverChoice::slg_default()) {
             Ok(x) => x,
             Err(e) => {
@@ -74,8 +77,9 @@ pub fn run(ctx: &Ctx, out: &mut Out) {
                 }
             };
             for (name, choice) in solver_choices() {
-                if coinductive && name == "recursive" {
-                    out.count("recursive_skipped_coinductive_unknowns");
+                let _ = coinductive; // (F12 is fixed: the recursive solver now gives up with Ambiguous instead of diverging)
+                if !ctx.inflight(&format!("{} | {} | goal {{ {} }}", name, text.replace('\n', " | "), gtext)) {
+                    out.count("skipped_crashed_earlier");
                     continue;
                 }
                 let r = solve_fresh(&text, &peeled, choice);
